@@ -223,7 +223,7 @@ class Interp:
         if p.ver:
             for a in sorted(p.ver, key=len, reverse=True):
                 if a in t:
-                    t = re.sub(re.escape(a) + r"(?![\w@])", "%s@%d" % (a, p.ver[a]), t)
+                    t = re.sub((r"(?<![\w.])" if "." not in a else "") + re.escape(a) + r"(?![\w@])", "%s@%d" % (a, p.ver[a]), t)
         return t
 
     def aslin(self, v):
@@ -891,6 +891,9 @@ class Interp:
     def assign(self, p, target, val):
         t = U(target)
         if isinstance(target, ast.Attribute):
+            p.ver[t] = p.ver.get(t, 0) + 1
+        elif isinstance(target, ast.Name) and t in p.env and any(re.search(r"(?<![\w.])%s(?![\w@])" % re.escape(t), a_) for a_, _ in p.conds):
+            # a local that path conditions speak about is bound again: what was learnt about the old value says nothing about the new one
             p.ver[t] = p.ver.get(t, 0) + 1
         if isinstance(target, (ast.Tuple, ast.List)):
             parts = None
